@@ -101,6 +101,7 @@ type genesis struct {
 	// the node is started with an ancestry list (the genesis header): it then maintains the list and checks
 	// lookup anchors of work reports against it
 	withAncestry bool
+	specialIDs   int // services whose identifier comes from the pool of special magnitudes / octet patterns
 }
 
 func validatorsData() types.ValidatorsData {
@@ -186,8 +187,29 @@ func mkGenesis(t *sim.Tape) *genesis {
 	st.Chi = types.Privileges{Assign: make(types.ServiceIDList, types.CoresCount), AlwaysAccum: types.AlwaysAccumulateMap{}}
 	st.Delta = types.ServiceAccountState{}
 	nSvc := t.Range(1, 3, "nsvc")
+	// service identifiers of every magnitude and octet pattern: state keys interleave the identifier's octets
+	// with hash octets (255 makes a service's storage keys look like service-info keys up to the trailing
+	// octets), and code that derives cache keys or orderings from an identifier must not depend on its size
+	idPool := []types.ServiceID{255, 0, 1, 256, 0xFF00, 0xFFFF, 65536, 0x00FF00FF, 0xFF0000FF, 0x00200001, 0x9C000004, 0xFFFFFFFE, 0xFFFFFFFF, 254}
+	oddIDs := t.Prob(2, 3, "odd_service_ids")
 	for i := 0; i < nSvc; i++ {
-		g.svcIDs = append(g.svcIDs, types.ServiceID(70000+11*i))
+		id := types.ServiceID(70000 + 11*i)
+		if oddIDs && t.Prob(2, 3, "odd_service_id") {
+			k := t.Pick([]int{6, 1, 1, 1, 1, 1, 1, 1, 1, 1, 1, 1, 1, 1}, "service_id_from_pool")
+			for tries := 0; tries < len(idPool); tries++ {
+				dup := false
+				for _, x := range g.svcIDs {
+					dup = dup || x == idPool[k]
+				}
+				if !dup {
+					break
+				}
+				k = (k + 1) % len(idPool)
+			}
+			id = idPool[k]
+			g.specialIDs++
+		}
+		g.svcIDs = append(g.svcIDs, id)
 	}
 	for i := 0; i < nSvc; i++ {
 		id := g.svcIDs[i]
